@@ -49,3 +49,17 @@ def facts(repo, f, H):
     f["streamLimitLoopShape"] = bool(re.search(r"for len\(allEntities\) < targetCount\+offset \{", body)) and bool(
         re.search(r"needed := targetCount \+ offset - len\(allEntities\)", body)) and bool(
         re.search(r"return allEntities\[offset:endIndex\], nil", body))
+
+    # getDisjointParts (stream and trace copies): the group boundary only grows; groups reversed for descending scans
+    ok = True
+    for rel in ("banyand/stream/snapshot.go", "banyand/trace/snapshot.go"):
+        body = H.strip_comments(H.func_body(repo, rel, r"func getDisjointParts\(parts \[\]\*part, asc bool\) \[\]\[\]\*part \{"))
+        ok = ok and bool(re.search(
+            r"if pMin <= boundary \{\s+currentGroup = append\(currentGroup, p\)\s+if pMax > boundary \{\s+boundary = pMax\s+\}\s+\} else \{"
+            r"\s+groups = append\(groups, currentGroup\)\s+currentGroup = \[\]\*part\{p\}\s+boundary = pMax", body))
+        ok = ok and bool(re.search(r"MinTimestamp < parts\[j\]\.partMetadata\.MinTimestamp", body)) and bool(re.search(r"if !asc \{", body))
+    f["disjointBoundaryShape"] = ok
+    # segResult.remove drops the sort value together with the series, unconditionally w.r.t. Fields
+    body = H.strip_comments(H.func_body(repo, "banyand/measure/query.go", r"func \(sr \*segResult\) remove\(i int\) \{"))
+    f["segResultRemoveShape"] = ("return" not in body) and bool(re.search(
+        r"if sr\.sortedValues != nil \{\s+sr\.sortedValues = append\(sr\.sortedValues\[:i\], sr\.sortedValues\[i\+1:\]\.\.\.\)", body))
